@@ -396,8 +396,8 @@ def decisionBudget : List (String × String × Nat) :=
   [("common", "if", 6),
    ("common", "match", 12),
    ("common", "!=", 2),
-   ("common", "lit:0", 6),
-   ("common", "lit:1", 12),
+   ("common", "sml:0", 6),
+   ("common", "sml:1", 12),
    ("common", "str:decode CBOR failure: {}", 1),
    ("common", "str:duplicate map key", 1),
    ("common", "str:encode CBOR failure", 1),
@@ -431,8 +431,8 @@ def decisionBudget : List (String × String × Nat) :=
    ("header", "<=", 1),
    ("header", ">=", 1),
    ("header", "&&", 9),
-   ("header", "lit:0", 3),
-   ("header", "lit:1", 4),
+   ("header", "sml:0", 3),
+   ("header", "sml:1", 4),
    ("header", "lit:16", 1),
    ("header", "str:IV and partial-IV specified", 1),
    ("header", "str:arbitrary text", 1),
@@ -453,11 +453,11 @@ def decisionBudget : List (String × String × Nat) :=
    ("sign", "if", 4),
    ("sign", "match", 5),
    ("sign", "!=", 3),
-   ("sign", "lit:0", 3),
-   ("sign", "lit:1", 3),
-   ("sign", "lit:2", 3),
-   ("sign", "lit:3", 3),
-   ("sign", "lit:4", 2),
+   ("sign", "sml:0", 3),
+   ("sign", "sml:1", 3),
+   ("sign", "sml:2", 3),
+   ("sign", "sml:3", 3),
+   ("sign", "sml:4", 2),
    ("sign", "str:CounterSignature", 1),
    ("sign", "str:Signature", 1),
    ("sign", "str:Signature1", 1),
@@ -471,12 +471,12 @@ def decisionBudget : List (String × String × Nat) :=
    ("mac", "if", 2),
    ("mac", "match", 5),
    ("mac", "!=", 2),
-   ("mac", "lit:0", 2),
-   ("mac", "lit:1", 2),
-   ("mac", "lit:2", 2),
-   ("mac", "lit:3", 2),
-   ("mac", "lit:4", 2),
-   ("mac", "lit:5", 1),
+   ("mac", "sml:0", 2),
+   ("mac", "sml:1", 2),
+   ("mac", "sml:2", 2),
+   ("mac", "sml:3", 2),
+   ("mac", "sml:4", 2),
+   ("mac", "sml:5", 1),
    ("mac", "str:MAC", 1),
    ("mac", "str:MAC0", 1),
    ("mac", "str:array", 2),
@@ -490,11 +490,11 @@ def decisionBudget : List (String × String × Nat) :=
    ("encrypt", "==", 1),
    ("encrypt", "!=", 4),
    ("encrypt", "&&", 1),
-   ("encrypt", "lit:0", 3),
-   ("encrypt", "lit:1", 3),
-   ("encrypt", "lit:2", 3),
-   ("encrypt", "lit:3", 4),
-   ("encrypt", "lit:4", 3),
+   ("encrypt", "sml:0", 3),
+   ("encrypt", "sml:1", 3),
+   ("encrypt", "sml:2", 3),
+   ("encrypt", "sml:3", 4),
+   ("encrypt", "sml:4", 3),
    ("encrypt", "str:Enc_Recipient", 1),
    ("encrypt", "str:Encrypt", 1),
    ("encrypt", "str:Encrypt0", 1),
@@ -523,11 +523,11 @@ def decisionBudget : List (String × String × Nat) :=
    ("context", "==", 1),
    ("context", "!=", 3),
    ("context", "&&", 1),
-   ("context", "lit:0", 3),
-   ("context", "lit:1", 3),
-   ("context", "lit:2", 4),
-   ("context", "lit:3", 4),
-   ("context", "lit:4", 2),
+   ("context", "sml:0", 3),
+   ("context", "sml:1", 3),
+   ("context", "sml:2", 4),
+   ("context", "sml:3", 4),
+   ("context", "sml:4", 2),
    ("context", "str:array", 3),
    ("context", "str:array with 2 or 3 items", 1),
    ("context", "str:array with 3 items", 1),
